@@ -153,7 +153,8 @@ PLANS["C05"] = Plan("C05", bytes_models, extra=gen.random_bytes, rows_to_scenari
 def spelling_models(tier):
     cap = {"quick": 700, "thorough": 12000}
     return [mc("MC_decide", "decideF", replay_cap=cap, Defects="{}", Family=q("F"), Tier=q("quick"), Export="TRUE"),
-            mc("MC_decide", "decideV", replay_cap=cap, Defects="{}", Family=q("V"), Tier=q("quick"), Export="TRUE")]
+            mc("MC_decide", "decideV", replay_cap=cap, Defects="{}", Family=q("V"), Tier=q("quick"), Export="TRUE"),
+            mc("MC_hist", "hist_wb", replay_cap={"quick": 300, "thorough": 5000}, Defects="{}", Family=q("wb"), Tier=q("quick"), Export="TRUE")]
 
 
 NSPELL = 7
@@ -342,10 +343,25 @@ def setup():
     return 0
 
 
+def respell(steps, sp):
+    out = []
+    for st in steps:
+        if st.get("op") != "req":
+            out.append(st)
+            continue
+        st2 = dict(st)
+        st2["rq"] = dict(st["rq"], sp=sp)
+        st2["ans"] = [dict(a, sp=sp) for a in st.get("ans", [])]
+        out.append(st2)
+    return out
+
+
 def scenarios_from_rows(rows, tag, backend_of):
     out = []
     for i, r in enumerate(rows):
         sid = "%s/%06d" % (tag, i)
+        if i % 3 == 2:  # behaviour depends on the meaning of the directives only: every third replay is re-spelled
+            r = dict(r, steps=respell(r["steps"], 1 + (i // 3) % 6))
         out.append({"id": sid, "backend": backend_of(i), "opt": r.get("opt", {}), "steps": r["steps"], "grp": "", "spv": 0})
     return out
 
